@@ -154,10 +154,17 @@ fn check_one(rep: &Report, ck: &str, c: &Case, params: &[Params]) -> CheckResult
     let ver = |pr: &Boudot2000RangeProof, g: &Integer, h: &Integer, n: &Integer, lo: &Integer, hi: &Integer| catch(|| pr.verify::<Sha256>(g, h, n, lo, hi)).unwrap_or(false);
 
     // ---- positive ---------------------------------------------------------------------------
+    // a third of the cases: a call the CL03 code refuses right before proving, another third right before verifying
+    if c.seed % 3 == 1 {
+        rep.class(&format!("refused-call-before-prove:{}", cl_refused_call(c.seed as u64 >> 2)));
+    }
     let proof = match catch(|| Boudot2000RangeProof::prove::<Sha256>(&x, &com, &p.g, &p.h, &p.n, &a, &b)) {
         Ok(pr) => pr,
         Err(e) => return rep.fail(ck, "prover-failed-in-range", format!("prove panicked for an in-range value: {}", e), cj(json!(null))),
     };
+    if c.seed % 3 == 2 {
+        rep.class(&format!("refused-call-before-verify:{}", cl_refused_call(c.seed as u64 >> 2)));
+    }
     rep.eval(ck, 1);
     if !ver(&proof, &p.g, &p.h, &p.n, &a, &b) {
         return rep.fail(ck, "honest-range-proof-rejected", format!("x class {} in an interval of width class {} ({} bits), commitment randomness {}", c.x_class % 6, c.w_class % 10, (&b - &a).complete().significant_bits(), r_tag), cj(json!(null)));
